@@ -3,7 +3,7 @@ from lib import semcheck, progs
 from lib.semcheck import impl, model_expr, oracle, describe, shrink, IMPORTS
 
 ID = 'C06'
-THEOREMS = []
+THEOREMS = ['C06_control_code_correct', 'C06_control_correct_flags', 'C06_compile_body_total', 'C06_compiled_program_computes_reference', 'C06_or_spec', 'C06_ite_spec', 'C06_if_no_else_spec', 'C06_not_spec', 'C06_neg_binds_nothing', 'C06_and_spec', 'C06_opaque_cut_refuted']
 CASE_TIMEOUT = 20
 COQ_CHUNK = 20
 RULE = ('random programs whose bodies nest ;, ->, -> without else and \\+ to depth 4 around calls with 0-3 solutions, =, \\=, true, fail and '
@@ -16,7 +16,7 @@ def gen(rng, tier):
     n = 240 if tier == 'quick' else 5000
     cases = []
     for _ in range(n):
-        o = progs.Opts(control=True, cut=rng.random() < 0.5, opaque_cut=rng.random() < 0.2, builtins=False, deep=rng.random() < 0.3)
+        o = progs.Opts(open_leaves=0.5 if rng.random() < 0.2 else 0.0, control=True, cut=rng.random() < 0.5, opaque_cut=rng.random() < 0.2, builtins=False, deep=rng.random() < 0.3)
         p = progs.gen_program(rng, o)
         cases.append({'clauses': p['clauses'], 'queries': p['queries']})
     return cases
